@@ -137,6 +137,7 @@ def run(facts, chk, tier, only=None):
     from . import cov_func
     chk.guard('C20.func', 'C20.func:likelihood:run', lambda: cov_func.check_likelihood(facts, chk, 'C20.func', tier))
     chk.guard('C20.func', 'C20.func:plot_hist:run', lambda: cov_func.check_plot_hist(facts, chk, 'C20.func', tier))
+    chk.guard('C20.width', 'C20.width:run', lambda: cov_func.check_counter_width(facts, chk, 'C20.width', tier))
     from . import c01
     chk.guard('C20.window', 'C20.window:run', lambda: c01.check_guards(facts, chk, 'C20.window'))
 
